@@ -1,7 +1,9 @@
 package props
 
 import (
+	"encoding/json"
 	"fmt"
+	"runtime"
 	"os"
 	"os/exec"
 	"strings"
@@ -13,7 +15,7 @@ import (
 
 // C11 — marshaling is deterministic and depends only on content.
 
-var c11BaseNames = []string{"soft resource + included", "wrapped resource + included", "Resources(mixed)", "SoftCollection", "WrapperCollection", "errors", "identifiers + meta + links", "weird names", "wide type, long unsorted selection", "Resources(mixed), no selection entry for a member's type"}
+var c11BaseNames = []string{"soft resource + included", "wrapped resource + included", "Resources(mixed)", "SoftCollection", "WrapperCollection", "errors", "identifiers + meta + links", "weird names", "wide type, long unsorted selection", "Resources(mixed), no selection entry for a member's type", "soft resource + 45 included, 4 processors"}
 
 // a type with more fields than any "short list" fast path, selected in reverse order
 var c11Wide = func() TypeD {
@@ -65,9 +67,16 @@ func c11Base(i int, p c11Params) *DocCase {
 	}
 	frag := []string{"t"}
 	switch i {
-	case 0, 1:
+	case 0, 1, 10:
 		doc.Data = mkT(softT, "t1", 1)
 		frag = []string{"t", "t1"}
+		if i == 10 {
+			// far more included resources than any small-input fast path (chunked or parallel
+			// marshaling) would leave alone, in scrambled order; the three permutable ones first
+			for k := 0; k < 42; k++ {
+				doc.Included = append(doc.Included, docRes(docU, true, fmt.Sprintf("x%02d", (k*29)%42), k))
+			}
+		}
 	case 2, 9:
 		col := &j.Resources{}
 		col.Add(mkT(true, "t2", 1))
@@ -202,6 +211,14 @@ func c11Marshal(c *DocCase) (out []byte, failure string) {
 
 func c11Body(x *mc.Exec) {
 	base := x.Choose(len(c11BaseNames), "base")
+	if x.Bool("with another program's documents in between") {
+		c11Between(x, base)
+		return
+	}
+	if base == 10 {
+		// the explorer's own processes run on one processor; this base is marshaled with four
+		defer runtime.GOMAXPROCS(runtime.GOMAXPROCS(4))
+	}
 	mode := x.Choose(4, "mode")
 	ref := c11Base(base, c11Default())
 	want, f := c11Marshal(ref)
@@ -328,6 +345,56 @@ func c11Body(x *mc.Exec) {
 	}
 }
 
+// c11Between: "depends only on content": between two marshals of a document, documents whose
+// resource types have the SAME NAMES but other fields are marshaled (a partial resource, another
+// service's model): each output must be what its own content says.
+func c11Between(x *mc.Exec, base int) {
+	ref := c11Base(base, c11Default())
+	want, f := c11Marshal(ref)
+	if f != "" {
+		x.Fail("C11:marshal-failed", "base %q: %s", c11BaseNames[base], f)
+		return
+	}
+	x.R.Add("transitions", 1)
+	x.R.Mark("nontrivial", mc.Hash("between", base))
+	for _, name := range []string{"t", "u", docQ.Name, "w"} {
+		d := TypeD{Name: name, Attrs: []AttrD{{"zz", kStr}, {"n", kStr}}, Rels: []RelD{{"many", true, "u", ""}}}
+		r := d.NewRes(true)
+		r.Set("id", "o1")
+		r.Set("zz", "Z")
+		r.Set("n", "N")
+		r.Set("many", "single")
+		u := &j.URL{Fragments: []string{name, "o1"}, ResType: name, ResID: "o1",
+			Params: &j.Params{Fields: map[string][]string{name: {"zz", "n", "many"}}, RelData: map[string][]string{}, SortingRules: []string{}, Include: [][]j.Rel{}}}
+		var out []byte
+		var err error
+		if p := Try(func() {
+			out, err = j.MarshalDocument(&j.Document{Data: r, RelData: map[string][]string{name: {"many"}}}, u)
+		}); p != "" || err != nil {
+			x.Fail("C11:between:other-failed", "marshaling a %q resource with other fields after base %q: panic %q error %v", name, c11BaseNames[base], p, err)
+			return
+		}
+		x.R.Add("transitions", 1)
+		var top struct {
+			Data struct {
+				Attributes    map[string]any
+				Relationships map[string]struct{ Data any }
+			}
+		}
+		_ = json.Unmarshal(out, &top)
+		one, _ := top.Data.Relationships["many"].Data.(map[string]any)
+		if len(top.Data.Attributes) != 2 || top.Data.Attributes["zz"] != "Z" || top.Data.Attributes["n"] != "N" || len(top.Data.Relationships) != 1 || one["id"] != "single" {
+			x.Fail("C11:between:output-depends-on-earlier-documents", "after base %q, a %q resource with attributes zz, n and a to-one relationship many marshals as %.300s", c11BaseNames[base], name, out)
+			return
+		}
+	}
+	again, f := c11Marshal(c11Base(base, c11Default()))
+	x.R.Add("transitions", 1)
+	if f != "" || string(again) != string(want) {
+		x.Fail("C11:between:output-depends-on-earlier-documents", "base %q marshals differently after documents with same-named types of other shapes were marshaled:\n  before: %.300s\n  after:  %.300s %s", c11BaseNames[base], want, again, f)
+	}
+}
+
 // c11Conformance runs the repository's own test suite against the INSTRUMENTED
 // build under the sorted, reversed and rotated uniform map schedules: it binds
 // the rewritten map loops (the explored transition function) to the original
@@ -361,7 +428,7 @@ func init() {
 	Register(&Prop{
 		Post: c11Conformance,
 		ID: "C11",
-		Rule: "Engine A over 10 base (document, URL) pairs, every URL with size, number and four custom page[...] keys (soft / wrapped single resource with 3 included of mixed implementations, Resources / SoftCollection / WrapperCollection, errors with links/source/meta maps, identifiers + nested meta + links map, names needing escapes, a 12-field type with a long selection given in reverse order, a mixed collection one of whose member types has no selection entry): (i) map schedules: the iteration order of EVERY instrumented map-range loop instance met while marshaling (all n! orders for n <= 4 keys, reversal/rotations/adjacent swaps above) is an environment choice; all executions with <= 1 (thorough 2) deviating loop instances, plus the uniform reversed and rotated schedules; (ii) all orders of a 3-id to-many list, of a 4-name field selection, of the relationship-data list and of a 3-element included list with distinct ids; (iii) three marshals in a row on the same objects, then a fourth after every order-irrelevant part was reversed in place. Oracle: byte-identical output everywhere; everything later readable from the resources and the URL (modulo the three exempted orders) unchanged. Non-trivial = execution with at least one deviating loop / a non-default permutation",
+		Rule: "Engine A over 11 base (document, URL) pairs, every URL with size, number and four custom page[...] keys (soft / wrapped single resource with 3 included of mixed implementations, Resources / SoftCollection / WrapperCollection, errors with links/source/meta maps, identifiers + nested meta + links map, names needing escapes, a 12-field type with a long selection given in reverse order, a mixed collection one of whose member types has no selection entry, a document with 45 included resources marshaled on 4 processors): (i) map schedules: the iteration order of EVERY instrumented map-range loop instance met while marshaling (all n! orders for n <= 4 keys, reversal/rotations/adjacent swaps above) is an environment choice; all executions with <= 1 (thorough 2) deviating loop instances, plus the uniform reversed and rotated schedules; (ii) all orders of a 3-id to-many list, of a 4-name field selection, of the relationship-data list and of a 3-element included list with distinct ids; (iii) three marshals in a row on the same objects, then a fourth after every order-irrelevant part was reversed in place; (iv) each base marshaled before and after documents whose types have the same names and other fields. Oracle: byte-identical output everywhere; everything later readable from the resources and the URL (modulo the three exempted orders) unchanged. Non-trivial = execution with at least one deviating loop / a non-default permutation",
 		Assumptions: []string{"the repository suite passing under the instrumented build (sorted, reversed, rotated schedules) binds the rewritten loops to the original ones"},
 		Harnesses: []Harness{{Name: "C11/marshal", Body: c11Body, Dev: func() int {
 			if Thorough() {
